@@ -24,11 +24,15 @@ package container
 //@   arith int
 //@   requires reply_due(P.st)
 //@   requires P.st == 2 ==> rep.Error != nil || msg.Cred != nil
-//@   assigns P.st
+//@   assigns P.st, FC.closed, FC.handed
 //@   abstracts result == nil ==> P.st == reply_next(old(P.st), rep.Error != nil, msg.Cred != nil)
 //@   abstracts result != nil ==> P.st == 9
 //@   abstracts old(P.st) == 9 ==> result != nil
+//@   ensures @C12 forall k int :: 0 <= k && k < len(fileToClose) && fileToClose[k] != nil ==> FC.closed[fileToClose[k]] || FC.handed[fileToClose[k]]
+//@   ensures forall f *os.File :: (old(FC.closed[f]) ==> FC.closed[f]) && (old(FC.handed[f]) ==> FC.handed[f])
 //@   loop 0: invariant -1 <= rangeindex && rangeindex < len(fileToClose)
+//@   loop 0: invariant forall k int :: 0 <= k && k <= rangeindex && fileToClose[k] != nil ==> FC.closed[fileToClose[k]]
+//@   loop 0: invariant forall f *os.File :: (old(FC.closed[f]) ==> FC.closed[f]) && FC.handed[f] == old(FC.handed[f])
 
 //@ func container.(*containerServer).sendReply
 //@   inline
@@ -36,7 +40,8 @@ package container
 //@ func container.(*containerServer).sendErrorReply props C10
 //@   arith int
 //@   requires reply_due(P.st)
-//@   assigns P.st
+//@   assigns P.st, FC.closed, FC.handed
+//@   ensures forall f *os.File :: (old(FC.closed[f]) ==> FC.closed[f]) && (old(FC.handed[f]) ==> FC.handed[f])
 //@   ensures result == nil ==> P.st == reply_next(old(P.st), true, false)
 //@   ensures result != nil ==> P.st == 9
 //@   ensures old(P.st) == 9 ==> result != nil
@@ -68,7 +73,7 @@ package container
 //@ func container.(*containerServer).serve props C10 C16
 //@   arith int
 //@   requires P.st == 0 && WA.tokens == 0
-//@   assigns P.st, S._all, FD._all, W._all, K._all, O._all, R._all, U._all, WA._all
+//@   assigns P.st, S._all, FD._all, W._all, K._all, O._all, R._all, U._all, WA._all, FC._all
 //@   ensures @C16 result != nil
 //@   loop 0: invariant (P.st == 0 && WA.tokens == 0) || P.st == 9
 
@@ -76,7 +81,7 @@ package container
 //@   arith int
 //@   requires P.st == recv_next(0, int(cmd.Cmd)) && WA.tokens == 0
 //@   requires int(cmd.Cmd) == 5 ==> (cmd.ExecCmd != nil && len(msg.Fds) < 1048576 && (cmd.ExecCmd.Seccomp == nil || (len(cmd.ExecCmd.Seccomp) >= 1 && len(cmd.ExecCmd.Seccomp) <= 65535)) && forall j int :: soff(msg.Fds) <= j && j < soff(msg.Fds) + len(msg.Fds) ==> 0 <= cell(msg.Fds, j) && cell(msg.Fds, j) < 2147483648)
-//@   assigns P.st, S._all, FD._all, W._all, K._all, O._all, R._all, U._all, WA._all
+//@   assigns P.st, S._all, FD._all, W._all, K._all, O._all, R._all, U._all, WA._all, FC._all
 //@   ensures result == nil ==> P.st == 0 || P.st == 9
 //@   ensures result == nil && P.st != 9 ==> WA.tokens == 0
 //@   case int(cmd.Cmd) == 5 && cmd.ExecCmd != nil:
@@ -86,7 +91,7 @@ package container
 //@ func container.(*containerServer).handlePing props C10
 //@   arith int
 //@   requires P.st == 1
-//@   assigns P.st
+//@   assigns P.st, FC._all
 //@   ensures result == nil ==> P.st == 0 || P.st == 9
 
 //@ func container.(*containerServer).handleConf props C10
@@ -97,14 +102,14 @@ package container
 //@ func container.(*containerServer).handleDelete props C10 C14
 //@   arith int
 //@   requires P.st == 1
-//@   assigns P.st
+//@   assigns P.st, FC._all
 //@   ensures result == nil ==> P.st == 0 || P.st == 9
 
 // C13 (model R in /verif/spec/reset_R.contracts): nil means every entry the directory listing returned
 // was removed (RemoveAll returned nil for dir/name), whatever its name.
 //@ func container.removeContents props C13
 //@   arith int
-//@   assigns R.names, R.gone, R.emptied
+//@   assigns R.names, R.gone, R.emptied, FC.closed
 //@   ensures result == nil ==> forall k int :: 0 <= k && k < len(R.names) ==> R.gone[joined(dir, R.names[k])]
 //@   abstracts result == nil ==> R.emptied == old(R.emptied)[dir := true]
 //@   abstracts result != nil ==> R.emptied == old(R.emptied)
@@ -120,7 +125,7 @@ package container
 //@ func container.(*containerServer).handleReset props C10 C13
 //@   arith int
 //@   requires P.st == 1
-//@   assigns P.st, R.names, R.gone, R.emptied
+//@   assigns P.st, R.names, R.gone, R.emptied, FC._all
 //@   loop 0: invariant P.st == 1 && -1 <= rangeindex && rangeindex < len(c.Mounts)
 //@   loop 0: invariant forall k int :: 0 <= k && k <= rangeindex && c.Mounts[k].FsType == "tmpfs" ==> R.emptied[joined("/", c.Mounts[k].Target)]
 //@   callsite (*containerServer).sendReply: assert @C13 forall k int :: 0 <= k && k < len(c.Mounts) && c.Mounts[k].FsType == "tmpfs" ==> R.emptied[joined("/", c.Mounts[k].Target)]
@@ -129,7 +134,7 @@ package container
 //@ func container.(*containerServer).handleSymlink props C10 C14
 //@   arith int
 //@   requires P.st == 1
-//@   assigns P.st
+//@   assigns P.st, FC._all
 //@   loop 0: invariant P.st == 1 && -1 <= rangeindex && rangeindex < len(links) && len(symlinkErrors) == len(links)
 //@   ensures result == nil ==> P.st == 0 || P.st == 9
 //@   callsite (*containerServer).sendReply: assert @C14 len(rep.BatchErrors) == len(links)
@@ -140,7 +145,7 @@ package container
 //@ func container.(*containerServer).handleExecveStarted props C10 C12
 //@   arith int
 //@   requires P.st == 5 && WA.tokens == 0
-//@   assigns P.st, W._all, WA.tokens, WA.pids
+//@   assigns P.st, W._all, WA.tokens, WA.pids, FC._all
 //@   ensures result == nil ==> P.st == 0 || P.st == 9
 //@   ensures @C10 @C12 result == nil && P.st != 9 ==> WA.tokens == 0 && WA.pids == old(WA.pids)
 //@   callsite syscall.Kill: assert @C12 pid == -1 && int(sig) == 9
@@ -149,7 +154,7 @@ package container
 //@ func container.(*containerServer).handleExecve$1 props C07 C10
 //@   arith int
 //@   requires P.st == 2 && c != nil && 0 <= pid && pid < 2147483648
-//@   assigns P.st, synced
+//@   assigns P.st, synced, FC._all
 //@   ensures result == nil ==> P.st == 5 && synced
 //@   ensures result != nil ==> (P.st == 4 || P.st == 9) && synced == old(synced)
 //@   callsite (*containerServer).sendReply: assert @C07 msg.Cred != nil && int(msg.Cred.Pid) == pid
@@ -208,7 +213,7 @@ package container
 //@   requires forall j int :: soff(msg.Fds) <= j && j < soff(msg.Fds) + len(msg.Fds) ==> 0 <= cell(msg.Fds, j) && cell(msg.Fds, j) < 2147483648
 //@   requires len(msg.Fds) < 1048576
 //@   requires cmd.Seccomp == nil || (len(cmd.Seccomp) >= 1 && len(cmd.Seccomp) <= 65535)
-//@   assigns WA.tokens, WA.pids, U._all, P.st, S.cb_calls, FD.closed, FD.cloexec, W.kill_pid, W.kill_count, W.reaped, FD.handed, all(cmd.Argv), K.fdt, K.clo, K.pid, K.secbits, K.caps_empty, K.nnp, K.filter, K.filter_flags, K.uid, K.uid_set, K.gid, K.gid_set, K.groups_set, K.ngroups, K.groups_ptr, K.sid_new, K.ctty, K.cwd, K.host, K.hostlen, K.host_issued, K.domain, K.domainlen, K.domain_issued, K.clone_flags, K.clone3, K.clone_cgroup, K.mnt_src, K.mnt_type, K.mnt_flags, K.mnt_data, K.mnt_done, K.remount, K.remount_done, K.nmount, K.pivoted, K.pivot_new, K.pivot_old, K.old_detached, K.old_removed, K.rl_cur, K.rl_max, K.rl_set, K.traceme, K.stopped_self, K.sync_stage, K.sync_wfile, K.sync_rfile, K.idmap_read, K.idmap_status, K.unshare_cgroup_issued, K.last_trap, K.last_errno, K.reported, K.reported_loc, K.reported_err, K.reported_idx, K.exec_attempts
+//@   assigns WA.tokens, WA.pids, U._all, P.st, S.cb_calls, FD.closed, FD.cloexec, W.kill_pid, W.kill_count, W.reaped, FD.handed, all(cmd.Argv), K.fdt, K.clo, K.pid, K.secbits, K.caps_empty, K.nnp, K.filter, K.filter_flags, K.uid, K.uid_set, K.gid, K.gid_set, K.groups_set, K.ngroups, K.groups_ptr, K.sid_new, K.ctty, K.cwd, K.host, K.hostlen, K.host_issued, K.domain, K.domainlen, K.domain_issued, K.clone_flags, K.clone3, K.clone_cgroup, K.mnt_src, K.mnt_type, K.mnt_flags, K.mnt_data, K.mnt_done, K.remount, K.remount_done, K.nmount, K.pivoted, K.pivot_new, K.pivot_old, K.old_detached, K.old_removed, K.rl_cur, K.rl_max, K.rl_set, K.traceme, K.stopped_self, K.sync_stage, K.sync_wfile, K.sync_rfile, K.idmap_read, K.idmap_status, K.unshare_cgroup_issued, K.last_trap, K.last_errno, K.reported, K.reported_loc, K.reported_err, K.reported_idx, K.exec_attempts, FC._all
 //@   ensures @C10 result == nil ==> P.st == 0 || P.st == 9
 //@   ensures @C10 @C12 result == nil && P.st != 9 ==> WA.tokens == 0 && WA.pids == old(WA.pids)
 //@   ensures @C12 forall k int :: 0 <= k && k < len(msg.Fds) ==> FD.closed[msg.Fds[k]]
@@ -228,7 +233,7 @@ package container
 //@ func container.(*containerServer).handleOpen props C10 C12 C14
 //@   arith int
 //@   requires P.st == 1 && c != nil
-//@   assigns P.st, O.checked, O.checked_ok
+//@   assigns P.st, O.checked, O.checked_ok, FC._all
 //@   ensures @C10 result == nil ==> P.st == 0 || P.st == 9
 //@   loop 0: invariant P.st == 1 && -1 <= rangeindex && rangeindex < len(open)
 //@   loop 0: invariant len(openErrors) == len(open) && fresh(openErrors) && soff(openErrors) == 0 && fresh(fds) && fresh(fileToClose)
@@ -359,7 +364,7 @@ package container
 //@ func container.(*container).Open$1 props C12
 //@   arith int
 //@   requires 0 <= fdIndex
-//@   assigns FD.closed
+//@   assigns FD.closed, FC.closed
 //@   ensures err != nil ==> forall k int :: fdIndex <= k && k < len(msg.Fds) ==> FD.closed[msg.Fds[k]]
 //@   loop 0: invariant -1 <= rangeindex && rangeindex < len(results)
 //@   loop 0: invariant err != nil ==> forall k int :: fdIndex <= k && k < len(msg.Fds) ==> FD.closed[msg.Fds[k]]
@@ -369,7 +374,7 @@ package container
 //@ func container.(*container).Open props C10 C12 C14
 //@   arith int
 //@   requires c != nil && (H.st == 0 || H.st == 9)
-//@   assigns H.st, H.batch, H.fds, FD.closed, FD.cloexec
+//@   assigns H.st, H.batch, H.fds, FD.closed, FD.cloexec, FC.closed
 //@   ensures @C10 H.st == 0 || H.st == 9
 //@   ensures @C14 err == nil ==> len(results) == len(p) && len(H.batch) == len(p)
 //@   ensures @C14 err == nil ==> forall i int :: 0 <= i && i < len(p) ==> (len(H.batch[i]) != 0 ==> results[i].File == nil && results[i].Err != nil)
@@ -416,7 +421,7 @@ package container
 //@   callsite Start: assert @C16 c.SysProcAttr != nil && int(c.SysProcAttr.Pdeathsig) == 9
 //@ func container.newPassCredSocketPair props C16
 //@   arith int
-//@   assigns FD.closed, FD.cloexec
+//@   assigns FD.closed, FD.cloexec, FC.closed
 //@   ensures result.2 == nil ==> result.0 != nil && result.0.UnixConn != nil && result.1 != nil && result.1.UnixConn != nil
 //@ func container.(*Builder).getIDMapping
 //@   trusted "builds the uid/gid mapping tables (plain data)"
@@ -498,3 +503,15 @@ package container
 //@   loop 0: invariant c == old(c)
 //@   loop 1: invariant c == old(c) && pid == WA.last_pid && (err != iface(syscall.Errno(4)) ==> W.reaped[WA.last_pid])
 //@   loop 2: invariant c == old(c)
+
+// ---- the send loop of the container init (C12): the files queued with a reply are closed after the send,
+// whether or not the send succeeded ----
+//@ func container.(*containerServer).sendLoop props C12 C19
+//@   arith int
+//@   requires c != nil && c.socket != nil && c.socket.Socket != nil && c.socket.Socket.UnixConn != nil && c.socket.encoder != nil
+//@   requires sep(c, c.socket) && sep(c.socket, c.socket.Socket) && sep(c, c.socket.Socket)
+//@   assigns FC.closed, SB._all, B._all, P.st
+//@   callsite (*containerServer).socketError: assert @C12 forall k int :: 0 <= k && k < len(rep.FileToClose) && rep.FileToClose[k] != nil ==> FC.closed[rep.FileToClose[k]]
+//@   loop 0: invariant c == old(c) && c.socket == old(c.socket) && c.socket.Socket == old(c.socket.Socket) && c.socket.Socket.UnixConn == old(c.socket.Socket.UnixConn) && c.socket.encoder == old(c.socket.encoder)
+//@   loop 1: invariant -1 <= rangeindex && rangeindex < len(rep.FileToClose) && c == old(c) && c.socket == old(c.socket) && c.socket.Socket == old(c.socket.Socket) && c.socket.Socket.UnixConn == old(c.socket.Socket.UnixConn) && c.socket.encoder == old(c.socket.encoder)
+//@   loop 1: invariant forall k int :: 0 <= k && k <= rangeindex && rep.FileToClose[k] != nil ==> FC.closed[rep.FileToClose[k]]
